@@ -295,8 +295,13 @@ fn lay_items(items: &[Item], l: &mut Lay) {
                 let methods: Vec<String> = im.items.iter().filter_map(|x| match x { ImplItem::Fn(f) => Some(f.sig.ident.to_string()), _ => None }).collect();
                 l.impls.push(json!({"file": l.rel, "line": ln, "col": c, "trait": im.trait_.as_ref().map(|(_, p, _)| last_seg(p)),
                     "self_ty": self_ty_name(&im.self_ty), "methods": methods, "derive": false}));
-                // nested items inside method bodies are not descended into (MIR names them by path)
+                for ii in &im.items {
+                    if let ImplItem::Fn(f) = ii {
+                        lay_block(&f.block, l);
+                    }
+                }
             }
+            Item::Fn(f) => lay_block(&f.block, l),
             Item::Trait(t) => {
                 let methods: Vec<Value> = t.items.iter().filter_map(|x| match x {
                     TraitItem::Fn(f) => Some(json!({"name": f.sig.ident.to_string(), "default": f.default.is_some()})), _ => None }).collect();
@@ -310,6 +315,30 @@ fn lay_items(items: &[Item], l: &mut Lay) {
                 }
             }
             _ => {}
+        }
+    }
+}
+
+/// items declared inside function bodies (local structs, impls of local visitors, ...)
+fn lay_block(b: &Block, l: &mut Lay) {
+    let items: Vec<Item> = b.stmts.iter().filter_map(|s| match s { Stmt::Item(i) => Some(i.clone()), _ => None }).collect();
+    if !items.is_empty() {
+        lay_items(&items, l);
+    }
+    struct V<'a>(&'a mut Lay);
+    impl<'a, 'ast> syn::visit::Visit<'ast> for V<'a> {
+        fn visit_block(&mut self, b: &'ast Block) {
+            let items: Vec<Item> = b.stmts.iter().filter_map(|s| match s { Stmt::Item(i) => Some(i.clone()), _ => None }).collect();
+            if !items.is_empty() {
+                lay_items(&items, self.0);
+            }
+            syn::visit::visit_block(self, b);
+        }
+        fn visit_item(&mut self, _: &'ast Item) {}
+    }
+    for st in &b.stmts {
+        if !matches!(st, Stmt::Item(_)) {
+            syn::visit::Visit::visit_stmt(&mut V(l), st);
         }
     }
 }
